@@ -1,0 +1,31 @@
+//go:build verif
+
+// Contracts for the verification machinery in /verif (govc). Comment-only file.
+
+package agent
+
+//@ guarded_by Agent.started mu
+
+//@ func (*Agent).UpdatePeers
+//@ property C18 C20
+//@ trusted body not yet under contract; Start relies on the frame only
+//@ requires !held(a.mu)
+//@ ensures [unlocked] !held(a.mu) && a.started == old(a.started)
+//@ ensures [calls]    poolcalls >= old(poolcalls)
+//@ modifies poolcalls, lastPoolCall
+
+//@ func (*Agent).Start
+//@ property C20 C10
+//@ requires !held(a.mu)
+//@ ensures [refuse-second] old(a.started) ==> err == ErrAlreadyStarted && spawned() == 0 && poolcalls == old(poolcalls)
+//@ ensures [one-loop]      err == nil ==> a.started && spawned() == 1 && !old(a.started)
+//@ ensures [clean-failure] err != nil && !old(a.started) ==> !a.started && spawned() == 0
+//@ ensures [registers]     err == nil ==> poolcalls >= old(poolcalls) + 1
+//@ ensures [unlocked]      !held(a.mu)
+
+//@ func (*Agent).serveUpdates
+//@ property C20 C10
+//@ requires !held(a.mu)
+//@ ensures [stopped-means-restartable] !a.started && !held(a.mu)
+//@ callreq Tick [interval] : arg0 == ite(a.UpdateInterval == 0, store.KeepaliveInterval, a.UpdateInterval)
+//@ loop 0 invariant [lock] !held(a.mu)
